@@ -167,6 +167,10 @@ func main() {
 			}
 			f := strings.Fields(line)
 			runOne(p, r, f[0], f[1:])
+			// one case at a time reaches the engine, so that a crash of the code under test in
+			// another goroutine (which recover cannot catch) loses only the case that caused it
+			fmt.Fprintf(w, "%s DONE\n", f[0])
+			w.Flush()
 		}
 		if p.finish != nil {
 			p.finish(r)
